@@ -22,7 +22,7 @@ from .effects import DECLARED_DEFAULT, INTERIOR, TOP, UT, check_param_not_mutate
 from .report import Ctx
 from .shared_rules import check_global_state_restore, check_recreate_branches
 from .srcmodel import call_leaf, calls_in, contains, dotted, src, walk_local
-from .util import enclosing_trys, root_name
+from .util import enclosing_trys, guard_chain, root_name
 
 PUBLIC = [
     ("_core:ArgumentParser.parse_args", ["args", "namespace"]),
@@ -182,6 +182,17 @@ def run(ctx: Ctx) -> int:
         if ok and not in_finally:
             ctx.notes.append("observation (not a violation): _expand_help restores action.default on the normal path only; no input is known that raises between the temporary assignment and the restore")
     ctx.oblige("C08.c", ok, eh, "the temporary default used while rendering help is restored on every normal path" if ok else "_expand_help can leave the temporary default in place", fn=eh, construct="expand_help restore")
+
+    # ---------------- C08.d: no live default instances ----------------------------
+    nd = ctx.func("_typehints:ActionTypeHint.normalize_default")
+    rz = [r for r in walk_local(nd) if isinstance(r, ast.Raise)]
+    ok = bool(rz)
+    if ok:
+        txt = " ".join(ast.unparse(t) for t, pol in guard_chain(rz[0]))
+        ok = "allow_default_instance" in txt and "is_subclass_type" in txt and "is_subclass_typehint(default_type)" in txt.replace("self.", "")
+    lazy = [s_ for s_ in walk_local(nd) if isinstance(s_, ast.Assign) and isinstance(s_.value, ast.Call) and call_leaf(s_.value) == "lazy_get_init_data"]
+    ok = ok and bool(lazy)
+    ctx.oblige("C08.d", ok, rz[0] if rz else nd, "an instance given as default of a class-typed argument is turned into a class_path/init_args spec (lazy instance) or rejected: instantiate_classes always builds from a spec, never hands out a shared live default" if ok else "live default instances of class-typed arguments are accepted: every instantiate_classes call would return the same object", fn=nd, construct="no live default instances")
 
     ctx.assumptions += [
         "external callees do not mutate their arguments except through the mutating-method vocabulary (append, extend, insert, pop, remove, clear, update, setdefault, sort, ...)",
